@@ -615,15 +615,110 @@ func c12Reuse(r *verdict.Run) {
 var _ = wire.Now
 
 func checkC12(r *verdict.Run) {
-	r.Rule = "fault sequences against blocked clients, for all five blocking commands: (1) timeouts 0.001..1.5 s must end with null not before t and within t+3 s (late only counts when a canary loop answered within 100 ms throughout), timeout 0 still blocked after 1.5 s then served, invalid timeouts rejected; " +
-		"(2) CLIENT UNBLOCK [TIMEOUT|ERROR] delivered while the target is idle, parked before registration / after registration / before capture, waiting, racing a push, unknown id, stale unblock before a later block: reply 1 iff the target's command ends because of it, 0 leaves it unaffected; " +
-		"(3) TCP close / RST / half-close / CLIENT KILL of a blocked client (waiting or parked), then a push: the element must reach a live consumer; (4) 20 block cycles per connection ending by timeout, push and unblock with normal commands in between; blocking commands inside MULTI/EXEC return at once. distinct = scenarios"
+	r.Rule = "fault sequences against blocked clients, for all five blocking commands: (1) timeouts 1e-9..1.5 s (anything above 0 is finite) must end with null not before t and within t+3 s (late only counts when a canary loop answered within 100 ms throughout), also under wake-ups that find nothing (within t+1.5 s), timeout 0 still blocked after 1.5 s then served, invalid timeouts refused; " +
+		"(2) CLIENT UNBLOCK [TIMEOUT|ERROR] - every other time from a connection in another database - delivered while the target is idle, parked before it counts as blocked / before registration / after registration / before capture, waiting, racing a push, unknown id, stale unblock before a later block: reply 1 iff the target's command ends because of it, 0 leaves it unaffected; " +
+		"(3) TCP close / RST / half-close / CLIENT KILL of a blocked client (waiting or parked at any of those stages), then a push: the element must reach a live consumer; (4) 20 block cycles per connection ending by timeout, push and unblock with normal commands in between; blocking commands inside MULTI/EXEC return at once; " +
+		"(5) three clients blocked on one key, the two later ones end their blocks in every pair of ways: the next push belongs to the first. distinct = scenarios"
 	c12Timeouts(r)
 	c12Unblock(r, false)
 	c12Disconnect(r)
 	c12Reuse(r)
+	c12EndingsBehindLiveWaiter(r)
 	if r.Tier == "thorough" {
 		c12Unblock(r, true)
 	}
 	r.Assume("bounded observations: 400 ms for 'stays blocked', 3 s for 'is released/served', 100-150 ms for the emulator to notice a closed socket")
+}
+
+// c12EndingsBehindLiveWaiter: three clients block on one key; the two that came later end their blocks (by CLIENT
+// UNBLOCK, timeout, disconnect, CLIENT KILL - the middle one first, then the last one) while the first keeps waiting.
+// Ending blocks must not disturb the clients that are still waiting: the next push belongs to the first client.
+func c12EndingsBehindLiveWaiter(r *verdict.Run) {
+	ways := []string{"unblock", "timeout", "close", "kill"}
+	type scn struct {
+		form   blkForm
+		b, c   string
+		killer int
+	}
+	var all []scn
+	for fi, f := range blkForms {
+		for i, b := range ways {
+			all = append(all, scn{f, b, ways[(i+1+fi)%len(ways)], fi})
+		}
+	}
+	parallel(len(all), 8, func(i int) {
+		sc := all[i]
+		c, err := startChild(false)
+		if err != nil {
+			r.Inconclusive("cannot start child")
+			return
+		}
+		defer c.Stop()
+		e, err := startEmu(c, "")
+		if err != nil {
+			r.Inconclusive("infra: " + err.Error())
+			return
+		}
+		aux, _ := e.dial()
+		defer aux.Close()
+		s := &c11Scn{r: r, c: c, e: e, aux: aux, name: fmt.Sprintf("endings-behind-live-waiter/%s/%s-then-%s", sc.form.name, sc.b, sc.c)}
+		var ws []*waiter
+		for k := 0; k < 3; k++ {
+			w, err := newWaiter(e)
+			if err != nil {
+				return
+			}
+			defer w.cn.Close()
+			ws = append(ws, w)
+		}
+		cmdFor := func(how string) []string {
+			if how == "timeout" {
+				return sc.form.args([]string{"q"}, "0.3")
+			}
+			return sc.form.args([]string{"q"}, "0")
+		}
+		for k, w := range ws {
+			cmd := sc.form.args([]string{"q"}, "0")
+			if k == 1 {
+				cmd = cmdFor(sc.b)
+			} else if k == 2 {
+				cmd = cmdFor(sc.c)
+			}
+			w.issue(cmd, 30*time.Second)
+			s.logf("client %d: %s", w.id, cmdString(cmd))
+			blocked := false
+			for t := time.Now(); time.Since(t) < 3*time.Second; time.Sleep(2 * time.Millisecond) {
+				if n, _ := c11Blocked(aux); n >= k+1 {
+					blocked = true
+					break
+				}
+			}
+			if !blocked {
+				r.Inconclusive("waiters did not block")
+				return
+			}
+		}
+		end := func(w *waiter, how string) {
+			switch how {
+			case "unblock":
+				s.do("CLIENT", "UNBLOCK", strconv.FormatInt(w.id, 10))
+				w.finished(3 * time.Second)
+			case "kill":
+				s.do("CLIENT", "KILL", "ID", strconv.FormatInt(w.id, 10))
+				time.Sleep(150 * time.Millisecond)
+			case "close":
+				w.cn.Close()
+				time.Sleep(150 * time.Millisecond)
+			case "timeout":
+				w.finished(3 * time.Second)
+			}
+			s.logf("client %d ended its block by %s", w.id, how)
+		}
+		end(ws[1], sc.b)
+		end(ws[2], sc.c)
+		s.do("RPUSH", "q", "el-1")
+		r.Eval(1)
+		s.expectServed(ws[0], "el-1", "ending/live-waiter-dropped-when-two-behind-it-ended/"+sc.form.name)
+		r.Distinct(s.name)
+	})
 }
